@@ -205,12 +205,29 @@ def single_faults(ser, rng, stride: dict | None = None, char_samples: int = 8):
                     return True
                 yield ("length." + seg, "%s cut/extended to %d octets" % (seg, ln), fn)
         if seg == "ek":
-            for how in ("empty", "trunc8", "extend8", "zeros"):
+            for how in ("empty", "trunc8", "extend8", "zeros", "prepend-zero", "prepend-zeros8", "strip-leading-zero", "strip-first-octet"):
                 def fn(tv, i=i, how=how):
                     d = _dec(tv, "ek", i)
                     if d is None:
                         d = b""
-                    if how == "empty":
+                    if how == "prepend-zero":
+                        # the same integer, another octet string (an RSA ciphertext is exactly as long as the modulus)
+                        if not d:
+                            return False
+                        d2 = b"\x00" + d
+                    elif how == "prepend-zeros8":
+                        if not d:
+                            return False
+                        d2 = b"\x00" * 8 + d
+                    elif how == "strip-leading-zero":
+                        if len(d) < 2 or d[0] != 0:
+                            return False
+                        d2 = d[1:]
+                    elif how == "strip-first-octet":
+                        if len(d) < 2:
+                            return False
+                        d2 = d[1:]
+                    elif how == "empty":
                         if not d:
                             return False
                         d2 = b""
